@@ -553,6 +553,11 @@ func (q *scriptedQ) MapInput(context.Context, *zap.Logger, controller.QRuntime, 
 }
 
 func runC09Backoff(t *testing.T, c *C09Case, trace bool) *Outcome {
+	return runItemBackoff(t, "C09", c, trace)
+}
+
+// runItemBackoff runs the scripted queue-item scenario; prop names the property the oracles report under.
+func runItemBackoff(t *testing.T, prop string, c *C09Case, trace bool) *Outcome {
 	out := &Outcome{}
 	var acks []Ack
 	var ev int64
@@ -593,11 +598,11 @@ func runC09Backoff(t *testing.T, c *C09Case, trace bool) *Outcome {
 			return
 		}
 		if ps := s.Panics(); len(ps) > 0 {
-			out.violate("C09/panic", "panic:"+firstLine(ps[0].Value), "task %s panicked: %s\n%s", ps[0].Task, ps[0].Value, ps[0].Stack)
+			out.violate(prop+"/panic", "panic:"+firstLine(ps[0].Value), "task %s panicked: %s\n%s", ps[0].Task, ps[0].Value, ps[0].Stack)
 			return
 		}
 		if w.RunReturned {
-			out.violate("C09/runtime-stopped", "runtime-stopped", "Runtime.Run returned: %v", w.RunErr)
+			out.violate(prop+"/runtime-stopped", "runtime-stopped", "Runtime.Run returned: %v", w.RunErr)
 			return
 		}
 		// every script must have been played to its end: a failing item is retried until it succeeds
@@ -607,7 +612,7 @@ func runC09Backoff(t *testing.T, c *C09Case, trace bool) *Outcome {
 			sc := c.Script[id]
 			if n := len(sq.kinds[id]); n > 0 {
 				if last := sq.kinds[id][n-1]; last != "ok" && last != "skip" {
-					out.violate("C09/retry", "retry-stopped", "item %s: its last reconcile (#%d) ended with %q and was never retried, although the system is quiescent\nkinds: %v times: %v", id, n-1, last, sq.kinds[id], sq.times[id])
+					out.violate(prop+"/retry", "retry-stopped", "item %s: its last reconcile (#%d) ended with %q and was never retried, although the system is quiescent\nkinds: %v times: %v", id, n-1, last, sq.kinds[id], sq.times[id])
 					return
 				}
 			}
@@ -628,12 +633,12 @@ func runC09Backoff(t *testing.T, c *C09Case, trace bool) *Outcome {
 				case "requeue":
 					streak = 0
 					if gap < 7*time.Second && !touched {
-						out.violate("C09/backoff", "requeue-early", "item %s: reconcile %d asked to be requeued after 7s but was reconciled again after %v without any new notification", id, n, gap)
+						out.violate(prop+"/backoff", "requeue-early", "item %s: reconcile %d asked to be requeued after 7s but was reconciled again after %v without any new notification", id, n, gap)
 						return
 					}
 				case "requeue-err":
 					if gap < 3*time.Second && !touched {
-						out.violate("C09/backoff", "requeue-early", "item %s: reconcile %d asked to be requeued after 3s (with error) but was reconciled again after %v without any new notification", id, n, gap)
+						out.violate(prop+"/backoff", "requeue-early", "item %s: reconcile %d asked to be requeued after 3s (with error) but was reconciled again after %v without any new notification", id, n, gap)
 						return
 					}
 				case "error", "panic":
@@ -665,7 +670,7 @@ func runC09Backoff(t *testing.T, c *C09Case, trace bool) *Outcome {
 				}
 			}
 			if minDeep <= maxFirst {
-				out.violate("C09/backoff-growth", "backoff-not-growing-or-not-reset", "retry delays do not grow with consecutive failures and reset on success: a delay after >=5 consecutive failures (%v) is not longer than a delay after a first failure (%v)\nfirst-failure delays: %v\ndeep-failure delays: %v", minDeep, maxFirst, firstDesc, deepDesc)
+				out.violate(prop+"/backoff-growth", "backoff-not-growing-or-not-reset", "retry delays do not grow with consecutive failures and reset on success: a delay after >=5 consecutive failures (%v) is not longer than a delay after a first failure (%v)\nfirst-failure delays: %v\ndeep-failure delays: %v", minDeep, maxFirst, firstDesc, deepDesc)
 				return
 			}
 			out.probe("growth-and-reset-compared")
